@@ -49,3 +49,8 @@ def run(repo, res, tier):
         _er15.rule_f1(repo, res, "new")
     from .. import hookrules as _hk15
     _hk15.rule_ctor_default(repo, res)
+    # a byte stream is read to its end (or to the first undecodable byte), not to the first multi-byte character: otherwise
+    # the lexer never sees the characters it has to refuse
+    from .. import apirules as _ap15
+    _ap15.rule_f2(repo, res)
+    _ap15.rule_f2b(repo, res)
